@@ -9,7 +9,9 @@
      {a:"Tick", <post>}   {a:"Abandon", <post>}
      {a:"Conc", evs:[{seq,end,kind,old}..], <post>}        a multiset delivered by several goroutines; out = all
                                                            forwards in the order they happened under the lock
-   <post> = next, pend:[{seq,end,kind,old}], recv:[..], skip:[..], nsk, hcs, stable, out:[{seq,end,kind,late}],
+   <post> = next, pend:[{seq,end,kind,old}], recv:[..], skip:[..], nsk, hcs, stable,
+            out:[{seq,end,kind,late, sk:[..], hcs}]  (sk/hcs = skipped membership and high cache sequence read WITHOUT
+            changeCache.lock at the instant of that forward, from inside the ChannelCache decorator),
             star:[..] (sequences visible in the "*" channel cache, log order), lls (last late sequence of "*") *)
 EXTENDS ChangeCache, TraceLib
 
@@ -21,7 +23,8 @@ LSet(x) == {x[i] : i \in 1..Len(x)}
 RECURSIVE LBagFrom(_, _, _)
 LBagFrom(x, i, B) == IF i > Len(x) THEN B ELSE LBagFrom(x, i + 1, BagAdd(B, E(x[i])))
 LBag(x) == LBagFrom(x, 1, EmptyBag)
-LOut(x) == [i \in 1..Len(x) |-> [seq |-> x[i].seq, end |-> x[i].end, kind |-> x[i].kind, late |-> x[i].late]]
+LOut(x) == [i \in 1..Len(x) |-> [seq |-> x[i].seq, end |-> x[i].end, kind |-> x[i].kind, late |-> x[i].late,
+                                  sk |-> LSet(x[i].sk), hcs |-> x[i].hcs]]
 
 Ev(a) == l <= TraceLen /\ Trace[l].a = a /\ l' = l + 1
 Logged == /\ next' = Trace[l].next /\ pending' = LBag(Trace[l].pend) /\ received' = LSet(Trace[l].recv)
@@ -33,7 +36,7 @@ TInit == Init /\ l = 1
 Reset == /\ Ev("Reset") /\ Logged
          /\ maxNum' = Trace[l].mn
          /\ owner' = [s \in Win |-> NoOwner] /\ legal' = TRUE /\ docArr' = {} /\ docLive' = {} /\ cnt' = [s \in Win |-> 0] /\ rcnt' = 0
-         /\ delivered' = [s \in Win |-> 0] /\ hiNL' = 0 /\ ordOK' = TRUE /\ phantom' = FALSE /\ abandoned' = {}
+         /\ delivered' = [s \in Win |-> 0] /\ hiNL' = 0 /\ ordOK' = TRUE /\ phantom' = FALSE /\ midOK' = TRUE /\ abandoned' = {}
          /\ lateSet' = {} /\ lateDoc' = {} /\ lastKind' = "init" /\ hist' = <<>>
 
 (* a concurrently delivered multiset: only the final state and the order of forwards are known *)
@@ -43,8 +46,8 @@ GhostConc(evs) ==
   LET g == GApplyAll(GCur, evs, 1) IN
   /\ legal' = g.legal /\ owner' = g.owner /\ docArr' = g.docArr
   /\ lateSet' = {} /\ lateDoc' = {} /\ lastKind' = "conc"
-  /\ GhostOut(g.docArr)
   /\ docLive' = (IF g.legal THEN docLive \cup g.docArr ELSE docLive)
+  /\ GhostOut(g.docArr, g.owner, docLive')
   /\ UNCHANGED <<maxNum, abandoned, cnt, rcnt>>
 
 (* pass P: implementation variables := logged real state; ghosts advance from the logged inputs *)
